@@ -26,10 +26,13 @@ Conventions of the statements
     (`track_range`); there the corner arm `if track >= 360. { 0. }` is dead code
     (`wrap_arm_dead_exact`), and `wrap_rounded_range` / `wrap_rounded_needs_arm` show on a
     `rem_euclid` with its one rounding made explicit why the arm is needed in `f64`;
-  - `groundspeed` and `track` are `Rat`s in the model: their FINITENESS as `f64` (no NaN/∞ out of
-    `sqrt`, `atan2`, the divisions) holds by typing only and is NOT a theorem; it, and the `360.0`
-    corner of the real `rem_euclid`, are checked by the harness on the real code only
-    (no division by zero: `trackDivisor_pos`).  IEEE rounding is outside (DESIGN §8).
+  - `groundspeed` and `track` are `Rat`s in the model.  GROUND SPEED: `groundspeed_range` (model, `[0, 136]`) and
+    `groundspeed_f64_range` (every operation rounded, any `Rounding fl` and IEEE `fl64`: result in `[0, 136]`, every
+    intermediate in `[0, 18432]`, so no overflow and no NaN) under the explicit hypothesis `SqrtSound` on `sqrt`.
+    TRACK: the final `rem_euclid(360.)` + corner arm with the IEEE-754 addition is in `[0, 360)` for every finite
+    input (`track_wrap_ieee`), the `360.0` corner is characterised sharply (`track_wrap_ieee_corner`).  NOT proved:
+    that the value entering the final wrap is finite (libm `atan2` finite on finite arguments; the divisions are by
+    non-zero numbers: `trackDivisor_pos`, the literals `4.`, `0.01745`) — checked by the harness on the real code.
 * One quantisation step is 128 units of 1e-7 degree.  The decodable window, read off the code
   (19 / 20 transmitted bits, references shifted right by 7), is
   `-2^18 ≤ ⌊q/128⌋ − ⌊r/128⌋ < 2^18` for latitude and `± 2^19` for longitude, `q` the true and `r`
@@ -111,7 +114,7 @@ theorem short_input_err (F : FloatOps) (ts : Nat) (fin : Bool) (roundLat roundLo
 
 /-! ### integer fields bounded; the track lies in [0, 360) in exact arithmetic
 
-(f64 finiteness of `groundspeed` / `track` and the `rem_euclid` 360.0 corner: harness only.) -/
+(f64: see the section "ground speed bounded, and the track wrap with the IEEE-754 addition" below.) -/
 
 /-- **track ∈ [0, 360)** for every record, on exact rationals (repaired code; `unrepaired_track_leaves_range` in
     Proofs/FlarmTrack.lean shows that `track4 − turning_rate` alone does not have this range). -/
